@@ -26,7 +26,7 @@ def op_fid(op, lf_fid, h_lf):
     o = op.get('op')
     if o in ('new_file', 'add_lf', 'write', 'set_sul'):
         return op.get('fid')
-    if o in ('add', 'nf_data'):
+    if o in ('add', 'nf_data', 'set_fh'):
         return lf_fid.get(op.get('lf'))
     if o in ('set', 'set_prop', 'set_attrs'):
         return lf_fid.get(h_lf.get(op.get('h')))
